@@ -33,7 +33,11 @@ func c15Run(c *h.Ctx) {
 	thinks := 0
 	exts := 0
 	mon := &PlayMon{}
+	var isReleased func() bool
 	mon.OnEvent = func(p *Play, e *h.Ev) {
+		if isReleased != nil && isReleased() && e.Kind == h.EvState && e.Name == pt.TableStateEvent_GameSettled {
+			p.StopNow = true // a released table plays its hand out and then does nothing more
+		}
 		if e.Kind == h.EvCall {
 			lastCallWall = e.Wall
 			return
@@ -101,8 +105,32 @@ func c15Run(c *h.Ctx) {
 			c.Count("round_close_checked", 1)
 		}
 	}
+	releaseAt := -1
+	if c.Case%8 == 3 {
+		releaseAt = 1 + r.Intn(3) // the table is released while this hand runs: it is played out, and stamped, like any other
+	}
+	nextFault := c.Case%8 == 5 // the backend fails one automatic next-round step: the closed round's deadline is cleared all the same
+	faulted := false
+	mon.OnStart = func(p *Play) {
+		if nextFault {
+			p.SS.Rig.Fault = func(n int, kind string) bool {
+				if kind == "Next" && !faulted && n > 12 {
+					faulted = true
+					return true
+				}
+				return false
+			}
+		}
+	}
+	released := false
+	isReleased = func() bool { return released }
 	mon.BeforeAct = func(p *Play, e *h.Ev, gp int, pid string) bool {
 		s := p.SS.S
+		if p.HandNo == releaseAt && !released {
+			released = true
+			s.TE.ReleaseTable()
+			c.Feature("released-while-the-hand-runs")
+		}
 		if slow && thinks < 3 && r.Intn(4) == 0 {
 			thinks++
 			c.Feature("player-thought-for-more-than-a-second")
@@ -147,6 +175,21 @@ func c15Run(c *h.Ctx) {
 		return
 	}
 	c.FP(fmt.Sprintf("%+v", p.Cfg), c.Seed)
+	if faulted && !c.Failed() {
+		// the hand stops at the failed step (the engine does not retry its own steps); the round it closed has no
+		// deadline any more
+		time.Sleep(5 * time.Millisecond)
+		if v := p.SS.S.TE.GetTable().State.CurrentActionEndAt; v != 0 {
+			c.Violate("C15/deadline-not-cleared-at-round-close/next-round-step-failed", fmt.Sprintf("the betting round closed and the backend failed the next-round step: the table still publishes the deadline %d", v), p.witness())
+			return
+		}
+		c.Feature("round-closed-with-failing-next-step")
+		c.Nontrivial()
+		return
+	}
+	if released && p.CurHand != nil && p.CurHand.Settled != nil {
+		p.Stalled = false
+	}
 	if p.Stalled && !c.Failed() {
 		c.InconclusiveW(fmt.Sprintf("foreign: hand %d did not settle within the watchdog", p.HandNo), p.witness())
 		return
@@ -169,7 +212,7 @@ func init() {
 			return map[string]int{"quick": 280, "thorough": 4500}[tier]
 		},
 		RequiredFeatures: func(string) []string {
-			return []string{"extension", "repeated-extension", "extension-after-expiry", "asked-again-in-round", "player-thought-for-more-than-a-second", "action-time=0", "action-time=1", "action-time=7", "action-time=30", "action-time=3600"}
+			return []string{"extension", "repeated-extension", "extension-after-expiry", "asked-again-in-round", "player-thought-for-more-than-a-second", "action-time=0", "action-time=1", "action-time=7", "action-time=30", "action-time=3600", "released-while-the-hand-runs", "round-closed-with-failing-next-step"}
 		},
 		CaseTimeout: 200e9,
 		InProc:      4,
